@@ -43,7 +43,7 @@ Proof. unfold frame_wf, frame_id; cbn. repeat split; try reflexivity; try (apply
    statement by statement, are the model's little-endian codec and flag test *)
 From Coq Require Import ZArith NArith List.
 Import ListNotations.
-From GM Require Import SrcPrelude SrcFrame SrcStreamwriter SrcFrameTie.
+From GM Require Import SrcPrelude SrcFrame SrcStreamwriter SrcFrameLemmas SrcFrameTie.
 Theorem C01_source_layout_constants :
   (c_frame_V1MagicByte = 254 /\ c_frame_V2MagicByte = 253 /\ c_frame_V2FlagSigned = 1 /\
    280 <= c_frame_bufferSize /\ 65507 <= c_frame_readBufferSize /\
